@@ -343,11 +343,15 @@ class PDDLWriter:
         # those 2 maps are "simmetrical", meaning that "(otn[k] == v) implies (nto[v] == k)"
 
         # construct keywords set
-        self.pddl_keywords = set(GENERAL_PDDL_KEYWORDS)
+        # the names UPPDDLReader reads as operators whatever the problem kind are always protected
+        self.pddl_keywords = (
+            set(GENERAL_PDDL_KEYWORDS)
+            | PDDL3_KEYWORDS
+            | CONTINGENT_PDDL_KEYWORDS
+            | {"assign", "total-cost"}
+        )
         if len(self.problem.processes) > 0 or len(self.problem.events) > 0:
             self.pddl_keywords |= PDDL_PLUS_KEYWORDS
-        if len(self.problem.trajectory_constraints) > 0:
-            self.pddl_keywords |= PDDL3_KEYWORDS
         if any(
             map(
                 lambda action: isinstance(action, up.model.action.DurativeAction),
